@@ -289,6 +289,7 @@ INTERPRETED = {
     "str.rjust": lambda s_, *xs: s_.rjust(*[int(x) if not isinstance(x, str) else x for x in xs]),
     "str.replace": lambda s_, *xs: s_.replace(*xs),
     "str.lower": lambda s_: s_.lower(),
+    "str.join": lambda sep, xs: sep.join(_pystr(x) if not isinstance(x, str) else x for x in xs),
     "str.upper": lambda s_: s_.upper(),
     "str.zfill": lambda s_, n: s_.zfill(int(n)),
     "builtins.repr": repr,
@@ -296,6 +297,7 @@ INTERPRETED = {
     "str.split": lambda s_, *xs: s_.split(*[int(x) if isinstance(x, float) else x for x in xs]),
     "elem": lambda a, i: a[int(i)] if np.ndim(a) > 0 or isinstance(a, (str, list, tuple)) else a,
     "first": lambda a, i=0: a,
+    "each": lambda a, *rest: a,  # the generic element of a per-row vector is the row's own value (per-row view)
     "getitem": lambda a, i: a[int(i)] if not isinstance(i, str) else a[i],
     "re.search": lambda p, s_: __import__("re").search(p, s_),
     "re.findall": lambda p, s_: __import__("re").findall(p, s_),
@@ -310,6 +312,56 @@ INTERPRETED = {
     "all": lambda x: bool(x),
     "any": lambda x: bool(x),
 }
+
+
+def _str_accessor(method, kwnames):
+    """pandas Series.str.<method>(...) applied to one cell's text (the per-row view of the vectorised string methods)"""
+    def f(s_, *xs):
+        pos = list(xs[:len(xs) - len(kwnames)])
+        kw = dict(zip(kwnames, xs[len(xs) - len(kwnames):]))
+        if not isinstance(s_, str):
+            raise TypeError(f".str.{method} of a non-text value {s_!r} (pandas gives NaN / raises)")
+        ints = lambda v: int(v) if isinstance(v, (float, np.floating)) and float(v).is_integer() else v
+        if method in ("ljust", "rjust", "center"):
+            return getattr(s_, method)(ints(kw.get("width", pos[0] if pos else 0)), *( [kw.get("fillchar", pos[1] if len(pos) > 1 else " ")]))
+        if method == "pad":
+            side = kw.get("side", pos[1] if len(pos) > 1 else "left")
+            w_ = ints(kw.get("width", pos[0]))
+            ch = kw.get("fillchar", pos[2] if len(pos) > 2 else " ")
+            return {"left": s_.rjust, "right": s_.ljust, "both": s_.center}[side](w_, ch)
+        if method == "zfill":
+            return s_.zfill(ints(pos[0]))
+        if method in ("strip", "lstrip", "rstrip"):
+            a_ = kw.get("to_strip", pos[0] if pos else None)
+            return getattr(s_, method)(a_) if a_ is not None else getattr(s_, method)()
+        if method in ("upper", "lower", "title", "capitalize"):
+            return getattr(s_, method)()
+        if method == "replace":
+            pat, repl = kw.get("pat", pos[0] if pos else None), kw.get("repl", pos[1] if len(pos) > 1 else None)
+            n_ = ints(kw.get("n", pos[2] if len(pos) > 2 else -1))
+            if kw.get("regex", False):
+                import re as _re
+                return _re.sub(pat, repl, s_, count=0 if n_ == -1 else n_)
+            return s_.replace(pat, repl, n_)
+        if method == "slice":
+            return s_[slice(*[None if v is None else ints(v) for v in (kw.get("start", pos[0] if pos else None), kw.get("stop", pos[1] if len(pos) > 1 else None),
+                                                                          kw.get("step", pos[2] if len(pos) > 2 else None))])]
+        if method == "len":
+            return len(s_)
+        if method in ("startswith", "endswith"):
+            return getattr(s_, method)(pos[0])
+        if method == "contains":
+            return (pos[0] in s_) if not kw.get("regex", True) else bool(__import__("re").search(pos[0], s_))
+        raise TypeError(f".str.{method} is not interpreted")
+    return f
+
+
+def _interpreted(name):
+    f = INTERPRETED.get(name)
+    if f is None and isinstance(name, str) and name.startswith(".str."):
+        meth, _, kws = name[5:].partition("[")
+        f = _str_accessor(meth, [k for k in kws.rstrip("]").split(",") if k])
+    return f
 
 
 def evaluate(t, env, cache=None):
@@ -353,7 +405,7 @@ def has_uninterpreted(t):
         return False
     k = t.key()
     if k not in _UNINT:
-        r = (t.op == "call" and t.args[0] not in INTERPRETED) or any(has_uninterpreted(a) for a in t.args)
+        r = (t.op == "call" and _interpreted(t.args[0]) is None) or any(has_uninterpreted(a) for a in t.args)
         _UNINT[k] = r
     return _UNINT[k]
 
@@ -367,7 +419,7 @@ def _cond_value(c, env, cache):
             return np.logical_and(a, b) if c.op == "and" else np.logical_or(a, b)
         if c.op == "not":
             return np.logical_not(_cond_value(c.args[0], env, cache))
-        if c.op == "call" and c.args[0] in INTERPRETED:
+        if c.op == "call" and _interpreted(c.args[0]) is not None:
             return evaluate(c, env, cache)
         if c.op in ("eq", "ne", "lt", "le", "gt", "ge") and len(c.args) == 2:
             # 'the symbolic input table has no rows': column terms range over its rows, so rows exist
@@ -443,6 +495,10 @@ def _apply(op, a, t):
         if op == "copysign":
             return np.copysign(_f(a[0]), _f(a[1]))
         if op == "round":
+            if isinstance(a[0], str):
+                return a[0]  # DataFrame.round leaves text columns as they are
+            if isinstance(a[0], (int, np.integer)) and not isinstance(a[0], bool):
+                return a[0]  # ... and integer columns integer
             return np.round(np.asarray(_f(a[0]), dtype=float), int(a[1]) if len(a) > 1 and a[1] is not None else 0)
         if op == "rhu":
             return _rhu(a[0])
@@ -506,7 +562,7 @@ def _apply(op, a, t):
         if op == "sel":
             return a[0]
         if op == "call":
-            f = INTERPRETED.get(a[0])
+            f = _interpreted(a[0])
             if f is not None:
                 try:
                     return f(*a[1:])
